@@ -482,7 +482,8 @@ def shapes(tier, seed):
         tg = [0, 2] if nm == "XX" else 2
         ct = 0 if nm[0] == "C" else None
         # second parameter b = a + d (a surjective re-parameterisation of the pair (a, b): G(a) G(b)^dagger depends on d only)
-        add(f"gate_eq/{nm}", h_gate_eq, dict(n1=nm, n2=nm, tg=tg, ct=ct, p1="a", p2="a+d", rng=(-3, 3) if q else (-4, 4)), policy=pole)
+        r = 3 if q else 4        # the range is part of the name: a replay file must find the shape it was produced by
+        add(f"gate_eq/{nm}/{r}pi", h_gate_eq, dict(n1=nm, n2=nm, tg=tg, ct=ct, p1="a", p2="a+d", rng=(-r, r)), policy=pole)
     add("gate_eq/CRX/multi-control", h_gate_eq, dict(n1="CRX", n2="CRX", tg=1, ct=[0, 3], p1="a", p2="a+d", rng=(-3, 3)), policy=pole)
     add("gate_eq/RX/const", h_gate_eq, dict(n1="RX", n2="RX", tg=0, ct=None, p1="a", p2=3 * math.pi), policy=pole)
     add("gate_eq/CNOT-CX", h_gate_eq, dict(n1="CNOT", n2="CX", tg=1, ct=0, p1=None, p2=None), policy=pole)
